@@ -5,6 +5,10 @@
 -/
 import PercevalModel.Lemmas.C15
 import PercevalModel.Lemmas.C15FF
+import PercevalModel.Lemmas.C15Text
+import PercevalModel.Lemmas.C15PS
+import PercevalModel.Lemmas.C15Tree
+import PercevalModel.Lemmas.C15F32
 
 namespace PM.C15
 
@@ -454,5 +458,244 @@ theorem replaced_key_loses_max :
       = some (2, [(1, 2)]) := ⟨rfl, rfl⟩
 
 end FF
+
+/-! ## Text formats (`Model/C15Text.lean`): numbers, Fock states with annotations, state vectors, distributions,
+sample lists — writer and reader as functions on character lists -/
+
+namespace Txt
+
+/-- `float(simple_float(v, nsimplify=False)[1])`: the text of any double reads back as the decimal on the grid … -/
+theorem roundtrip_number (v : Dbl) : parseNum (renderNum (gnumOf v)) = some (gridVal v) :=
+  parseNum_renderNum _
+
+/-- … which is within half a unit of the last digit kept: `|gridVal v − v| ≤ ½·10^-(6+E)`, `E = 0` unless
+`|v| < 10^-3` (seven significant digits then).  This is the "1e-6 text precision" of the property. -/
+theorem number_precision (v : Dbl) :
+    |gridVal v - v| ≤ 1 / (2 * (10 : Dbl) ^ (6 + gridExp v.num.natAbs v.den)) :=
+  gridVal_error v
+
+/-- `BasicState(str(s)) = s` for every Fock state: any number of modes (zero included), any photon numbers, photons
+with annotations (several tags per photon, natural-number values up to 2^24 or polarisation letters), groups of
+equal photons written with a count, annotated and plain photons mixed in one mode. -/
+theorem roundtrip_state (s : FState) (h : FState.WF s = true) : decodeState (encodeState s) = some s :=
+  decodeState_encodeState s h
+
+/-- BSDistribution: the states come back exactly (as a dict: same keys, same order), every probability as its
+decimal on the grid; the empty distribution included. -/
+theorem roundtrip_bsdistribution (d : List (FState × Dbl)) (hw : ∀ e ∈ d, FState.WF e.1 = true)
+    (hn : (d.map Prod.fst).Nodup) (hm : uniform (d.map (·.1.length)) = true) :
+    decodeBSD (encodeBSD d) = some (d.map fun e => (e.1, gridVal e.2)) :=
+  decodeBSD_encodeBSD d hw hn hm
+
+/-- BSCount: exact. -/
+theorem roundtrip_bscount (d : List (FState × Nat)) (hw : ∀ e ∈ d, FState.WF e.1 = true)
+    (hn : (d.map Prod.fst).Nodup) : decodeBSC (encodeBSC d) = some d :=
+  decodeBSC_encodeBSC d hw hn
+
+/-- StateVector: the terms in writing order, every amplitude (real and imaginary part) as its decimal on the grid.
+(The reader adds the terms up; the native vector drops a term whose squared modulus is not above 1e-12 and
+normalises lazily: outside the model, see the manifest.) -/
+theorem roundtrip_statevector (sv : List Term) (hne : sv ≠ []) (hw : ∀ t ∈ sv, FState.WF t.2.2 = true)
+    (hm : uniform (sv.map (·.2.2.length)) = true) :
+    decodeSV (encodeSV sv) = some (sv.map roundTerm) :=
+  decodeSV_encodeSV sv hne hw hm
+
+/-- SVDistribution: every key as above, every probability on the grid; keys that print differently stay apart. -/
+theorem roundtrip_svdistribution (d : List (List Term × Dbl)) (hne : ∀ e ∈ d, e.1 ≠ [])
+    (hw : ∀ e ∈ d, ∀ t ∈ e.1, FState.WF t.2.2 = true)
+    (hm : ∀ e ∈ d, uniform (e.1.map (·.2.2.length)) = true) (hmm : uniform (d.map (svModes ·.1)) = true)
+    (hn : (d.map fun e => e.1.map roundTerm).Nodup) :
+    decodeSVD (encodeSVD d) = some (d.map fun e => (e.1.map roundTerm, gridVal e.2)) :=
+  decodeSVD_encodeSVD d hne hw hm hmm hn
+
+/-- BSSamples down to the characters: dictionary + index coding (`bssamples_roundtrip`) composed with the text layer
+(`;`-joined states, `/`, `;`-joined indices): any list of samples, any repetition pattern, the empty list. -/
+theorem roundtrip_bssamples_text (l : List FState) (hw : ∀ s ∈ l, FState.WF s = true) :
+    decodeBSS (encodeBSS l) = some l := by
+  unfold decodeBSS encodeBSS
+  rw [decodeBSSText_encode l hw]
+  exact bssamples_roundtrip l
+
+/-! non-vacuity: a two-mode state with a counted group, a two-tag photon, a polarised photon and plain photons -/
+def witState : FState :=
+  [⟨[⟨2, [("_".toList, "1".toList)]⟩, ⟨1, [("a".toList, "1".toList), ("b".toList, "2".toList)]⟩], 3⟩,
+   ⟨[⟨1, [("P".toList, "H".toList)]⟩], 0⟩]
+
+example : FState.WF witState = true := by decide
+example : encodeState witState = "|2{_:1}{a:1,b:2}3,{P:H}>".toList := by decide
+example := roundtrip_state witState (by decide)
+example := roundtrip_bsdistribution [(witState, 1 / 3)] (by decide) (by decide) (by decide)
+example := roundtrip_statevector [(1 / 2, -1 / 3, witState)] (by decide) (by decide) (by decide)
+example := roundtrip_bssamples_text [witState, witState] (by decide)
+
+/-- the reader sorts and merges what a user writes in any order -/
+example : decodeState "|{a:1,b:2}{_:1}{_:1}3,{P:H}>".toList = some witState := by decide
+
+/-- boundary: the empty state vector has no text the reader accepts -/
+theorem empty_statevector_not_readable : decodeSV (encodeSV []) = none := by decide
+
+end Txt
+
+/-! ## Post-selection expressions (`Model/C15PS.lean`) -/
+
+namespace PS
+
+/-- `PostSelect(text)` reads back exactly the expression the (repaired) writer printed: all comparators, the three
+operators with any number of operands, negations in every position, any nesting depth. -/
+theorem roundtrip_postselect (x : Option Expr) (h : ∀ e, x = some e → e.WF) :
+    parseTop (printTop true x) = some x :=
+  parseTop_printTop_fixed x h
+
+/-- … hence the same predicate on every state. -/
+theorem roundtrip_postselect_meaning (x : Option Expr) (h : ∀ e, x = some e → e.WF) (st : List Nat) :
+    (parseTop (printTop true x)).map (fun y => evalTop y st) = some (evalTop x st) :=
+  eval_roundtrip_fixed x h st
+
+/-- The writer as found (`str(ps)`, no parentheses around a negation) is correct on the expressions in which no
+negation is a non-last operand … -/
+theorem roundtrip_postselect_asfound_partial (x : Expr) (hw : x.WF) (hn : x.NotLastFree) :
+    parse (print false x) = some x :=
+  parse_print_asfound_partial x hw hn
+
+/-- … and wrong otherwise: `(![0]==1) & [1]==1` is written `(! [0] == 1 & [1] == 1)`, which the parser reads as
+`!([0]==1 & [1]==1)` — another predicate (they differ on the state `|0,0>`). -/
+theorem roundtrip_postselect_fails_on_current_code :
+    witness.WF ∧ print false witness = "(! [0] == 1 & [1] == 1)".toList ∧
+    parse (print false witness) = some witnessRead ∧ witnessRead ≠ witness ∧
+    eval witness [0, 0] = false ∧ eval witnessRead [0, 0] = true :=
+  print_asfound_changes_meaning
+
+example : ∃ e : Expr, e.WF ∧ ¬ e.NotLastFree := ⟨witness, by decide, by decide⟩
+
+end PS
+
+/-! ## dict / list containers (`Model/C15Tree.lean`) -/
+
+namespace Tree
+
+/-- `deserialize(serialize(t, compress=c)) = t` for every tree of dicts (keys: strings or serialisable objects),
+lists, serialisable objects and passthrough values, any nesting depth, any `compress` argument (it is handed down
+unchanged), given only that the leaf codec round-trips (the other theorems of this file) and writes the prefix. -/
+theorem roundtrip_container {α C : Type} [DecidableEq α] {enc : C → α → Text} {dec : Text → Option α}
+    (H : LeafCodec enc dec) (c : C) (t : Tree α) (h : t.WF) : decode dec (encode enc c t) = some t :=
+  roundtrip_tree H c t h
+
+/-- the same through `serialize_to_file` / `deserialize_file` (json trusted: identity on the wire value) -/
+theorem roundtrip_container_file {α C : Type} [DecidableEq α] {enc : C → α → Text} {dec : Text → Option α}
+    (H : LeafCodec enc dec) (c : C) (t : Tree α) (h : t.WF) : fileRoundtrip enc dec c t = some t :=
+  roundtrip_tree_file H c t h
+
+/-- the prefix hypothesis holds for everything the envelope layer writes, compressed or not -/
+theorem envelope_has_prefix (z : Codec) (tag payload : Text) (doCompress : Bool) :
+    isPcvl (handleCompression z (mkEnv tag payload) doCompress) = true :=
+  isPcvl_envelope z tag payload doCompress
+
+/-- boundary: a plain string that itself starts with `:PCVL:` never comes back as that string -/
+theorem container_prefixed_string_not_preserved {α C : Type} [DecidableEq α] (enc : C → α → Text)
+    (dec : Text → Option α) (c : C) (s : Text) (h : isPcvl s = true) :
+    decode dec (encode enc c (.raw (.str s))) ≠ some (.raw (.str s)) :=
+  prefixed_raw_string_not_preserved enc dec c s h
+
+example := roundtrip_container toy_codec () sampleTree sampleTree_wf
+
+end Tree
+
+/-! ## Feed-forward: any history of a provider, the value tables of a configurator, 32-bit floats -/
+
+namespace FF
+
+variable {κ α β : Type} [DecidableEq κ]
+
+/-- EVERY provider state reachable by any history of calls (re-assigned keys included) is read back without raising,
+identical in every field except that the maximal size becomes the largest size actually present; it is unchanged
+iff the stored maximum is still attained (generalises `replaced_key_loses_max`). -/
+theorem roundtrip_provider_any_history (size : α → Nat) (enc : α → β) (dec : β → Option α)
+    (hcodec : ∀ c, dec (enc c) = some c) (m : Nat) (offset : Int) (name : String) (d : α)
+    (ops : List (Op κ α)) (p : Prov κ α) (h : runOps size (Prov.new size m offset name d) ops = some p)
+    (wire : List (κ × α)) (hw : wire.Perm p.map) :
+    ∃ q, decProv dec size false p.m (encProv enc p wire) = some q ∧
+      q.m = p.m ∧ q.offset = p.offset ∧ q.name = (if p.name = "" then "FFC" else p.name) ∧
+      q.default = p.default ∧ q.blocked = p.blocked ∧ q.map = wire ∧ q.map.Perm p.map ∧
+      q.maxSize = trueMax size p.default p.map ∧ q.maxSize ≤ p.maxSize ∧
+      (q.maxSize = p.maxSize ↔ IsMax size p.default p.map p.maxSize) ∧ Good size q :=
+  roundtrip_provider_any size enc dec p (reachable_inv size m offset name d ops p h) (hcodec _)
+    (fun _ _ => hcodec _) wire hw
+
+/-- one trip normalises: serialising the rebuilt provider again returns it -/
+theorem roundtrip_provider_twice (size : α → Nat) (enc : α → β) (dec : β → Option α)
+    (hcodec : ∀ c, dec (enc c) = some c) (m : Nat) (offset : Int) (name : String) (d : α)
+    (ops : List (Op κ α)) (p : Prov κ α) (h : runOps size (Prov.new size m offset name d) ops = some p)
+    (wire : List (κ × α)) (hw : wire.Perm p.map) (q : Prov κ α)
+    (hq : decProv dec size false p.m (encProv enc p wire) = some q)
+    (wire' : List (κ × α)) (hw' : wire'.Perm q.map) :
+    ∃ r, decProv dec size false q.m (encProv enc q wire') = some r ∧ Equiv r q :=
+  roundtrip_provider_second size enc dec p (reachable_inv size m offset name d ops p h) (hcodec _)
+    (fun _ _ => hcodec _) wire hw q hq wire' hw'
+
+end FF
+
+namespace FFC
+
+open PM.C15.F32 in
+/-- An `FFConfigurator` whose constructor and `add_configuration` calls were accepted is rebuilt — whatever order the
+protobuf maps yield states and names in — with every table value replaced by its 32-bit float; the reader does not
+raise as long as no variable of the controlled circuit holds a value. -/
+theorem roundtrip_configurator_f32 {κ γ δ : Type} [DecidableEq κ] (I : Ctl γ) (enc : γ → δ) (dec : δ → Option γ)
+    (ksize : κ → Nat) (x : Cfgr κ γ ℚ) (hv : Valid ksize x) (c' : γ) (hdec : dec (enc x.ctrl) = some c')
+    (hvars : (I.vars c').Perm x.linked) (hfree : ∀ n ∈ I.vars c', n ∈ I.free c')
+    (wd : Table ℚ) (hwd : wd.Perm x.defaultConfig) (wc : List (κ × Table ℚ)) (hwc : CfgPerm wc x.configs) :
+    ∃ y, decCfgr I dec ksize x.m (encCfgr enc f32D x wd wc) = .ok y ∧
+      y.defaultConfig = mapT f32D wd ∧ y.configs = mapC f32D wc ∧
+      ∀ v : ℚ, |v| < 32 → |f32D v - v| ≤ (2 : ℚ) ^ (-20 : ℤ) :=
+  configurator_values_close I enc dec ksize x hv c' hdec hvars hfree wd hwd wc hwc
+
+open PM.C15.F32 in
+/-- the rebuilt configurator IS the original (up to dict order) iff every table value is a binary32 number -/
+theorem roundtrip_configurator_exact_iff_f32 {κ γ δ : Type} [DecidableEq κ] (I : Ctl γ) (enc : γ → δ)
+    (dec : δ → Option γ) (ksize : κ → Nat) (x : Cfgr κ γ ℚ) (hv : Valid ksize x) (c' : γ)
+    (hdec : dec (enc x.ctrl) = some c') (hvars : (I.vars c').Perm x.linked) (hfree : ∀ n ∈ I.vars c', n ∈ I.free c')
+    (wd : Table ℚ) (hwd : wd.Perm x.defaultConfig) (wc : List (κ × Table ℚ)) (hwc : CfgPerm wc x.configs)
+    (y : Cfgr κ γ ℚ) (hy : decCfgr I dec ksize x.m (encCfgr enc f32D x wd wc) = .ok y) :
+    Equiv y (expected I (fun v => v) x c') ↔ AllValues IsF32 x :=
+  configurator_exact_iff_f32 I enc dec ksize x hv c' hdec hvars hfree wd hwd wc hwc y hy
+
+/-- boundary: a variable of the controlled circuit that holds a value makes the reader's constructor raise
+`KeyError` (the constructor copies the circuit, the copy has the variable fixed, `assign` does not find it) -/
+theorem configurator_reader_keyerror {κ γ δ V : Type} [DecidableEq κ] (I : Ctl γ) (enc : γ → δ)
+    (dec : δ → Option γ) (rnd : V → V) (ksize : κ → Nat) (x : Cfgr κ γ V) (hv : Valid ksize x) (c' : γ)
+    (hdec : dec (enc x.ctrl) = some c') (hvars : (I.vars c').Perm x.linked) (hval : ∃ n ∈ I.vars c', n ∉ I.free c')
+    (wd : Table V) (hwd : wd.Perm x.defaultConfig) (wc : List (κ × Table V)) :
+    ∃ n, n ∈ I.vars c' ∧ n ∉ I.free c' ∧ decCfgr I dec ksize x.m (encCfgr enc rnd x wd wc) = .error (.key n) :=
+  reader_keyerror I enc dec rnd ksize x hv c' hdec hvars hval wd hwd wc
+
+end FFC
+
+namespace F32
+
+/-- a value that went through the 32-bit field once goes through it unchanged ever after -/
+theorem f32_idempotent (v w : ℚ) (h : f32 v = some w) : f32 w = some w := f32_idem v w h
+
+/-- exactly the binary32 numbers survive unchanged -/
+theorem f32_exact_iff (v : ℚ) : f32 v = some v ↔
+    v = 0 ∨ ∃ (k : ℕ) (t : ℤ), 0 < k ∧ k < 2 ^ 24 ∧ -149 ≤ t ∧ t ≤ 104 ∧
+      (v = (k : ℚ) * (2 : ℚ) ^ t ∨ v = -((k : ℚ) * (2 : ℚ) ^ t)) :=
+  f32_fixed_iff v
+
+/-- half an ulp: relative error 2^-24 in the normal range … -/
+theorem f32_relative_error (v w : ℚ) (h : f32 v = some w) (hv : (2 : ℚ) ^ (-126 : ℤ) ≤ |v|) :
+    |w - v| ≤ (2 : ℚ) ^ (-24 : ℤ) * |v| :=
+  f32_err_rel v w h hv
+
+/-- … so below 32 in modulus a table value moves by less than the 1e-6 text precision of the property … -/
+theorem f32_within_text_precision (v w : ℚ) (h : f32 v = some w) (hv : |v| < 32) :
+    |w - v| ≤ (2 : ℚ) ^ (-20 : ℤ) ∧ (2 : ℚ) ^ (-20 : ℤ) < 1 / 1000000 :=
+  f32_err_lt_32 v w h hv
+
+/-- … and 32 is sharp: just above it a value can move by more than 1e-6. -/
+theorem f32_beyond_text_precision : f32 (32 + 1 / 524288) = some 32 ∧
+    |(32 : ℚ) - (32 + 1 / 524288)| = (2 : ℚ) ^ (-19 : ℤ) ∧ (1 : ℚ) / 1000000 < (2 : ℚ) ^ (-19 : ℤ) :=
+  f32_example_tie_32
+
+end F32
 
 end PM.C15
